@@ -1,4 +1,5 @@
 import CelmaVerif.Lemmas.Buffers
+import CelmaVerif.Lemmas.BuffersRun
 /-
   C19 — buffered reading and writing preserve the byte stream for every chunking.
   Property theorems only; helper lemmas are in Lemmas/Buffers.lean.
@@ -10,50 +11,70 @@ open CelmaVerif CelmaVerif.Buffers
 
 /-- Every history of appends/flushes on a fresh buffer of any size: no access outside the
     N-byte buffer or the caller's block (`ok`, never `oob`), at most N bytes buffered, and
-    sink ++ buffered bytes is exactly what was appended, once and in order. -/
+    sink ++ buffered bytes is exactly what was appended, once and in order.  The reached state
+    satisfies the invariant `Inv` (buffer length = N, write position ≤ N) and its size is still N,
+    so the single-step theorems below apply to it. -/
 theorem C19_write_stream (N : Nat) (ops : List WOp) :
-    ∃ b, (WBuf.new N).run ops = .ok b ∧ b.pos ≤ N ∧ b.buf.length = N ∧
+    ∃ b, (WBuf.new N).run ops = .ok b ∧ b.Inv ∧ b.N = N ∧ b.pos ≤ N ∧ b.buf.length = N ∧
       b.sink.flatten ++ b.buf.take b.pos = appended ops := by
-  obtain ⟨b, h1, h2, h3, h4⟩ := WBuf.run_spec ops (WBuf.new N) (WBuf.new_inv N)
-  have hN : b.N = N := by rw [h3]; rfl
-  refine ⟨b, h1, by rw [← hN]; exact h2.2, by rw [← hN]; exact h2.1, ?_⟩
-  have : (WBuf.new N).stream = [] := by simp [WBuf.stream, WBuf.new]
-  rw [this] at h4
-  simpa [WBuf.stream] using h4
+  obtain ⟨b, h1, h2, h3, h4⟩ := WBuf.reach N ops
+  exact ⟨b, h1, h2, h3, by rw [← h3]; exact h2.2, by rw [← h3]; exact h2.1, h4⟩
 
-/-- everything appended has reached the sink no later than the next flush -/
+/-- The same from ANY state satisfying the invariant (not only the fresh buffer): the history does
+    not fail, the invariant and the size are preserved, and sink ++ buffered grows by exactly the
+    appended bytes. -/
+theorem C19_write_stream_from (b : WBuf) (h : b.Inv) (ops : List WOp) :
+    ∃ b', b.run ops = .ok b' ∧ b'.Inv ∧ b'.N = b.N ∧
+      b'.sink.flatten ++ b'.buf.take b'.pos = (b.sink.flatten ++ b.buf.take b.pos) ++ appended ops :=
+  WBuf.run_spec ops b h
+
+/-- everything appended has reached the sink no later than the next flush (after every history;
+    the state after the flush again satisfies the invariant) -/
 theorem C19_write_flush (N : Nat) (ops : List WOp) :
-    ∃ b, (WBuf.new N).run (ops ++ [.flush]) = .ok b ∧ b.pos = 0 ∧ b.sink.flatten = appended ops := by
-  obtain ⟨b, h1, h2, h3, h4⟩ := WBuf.run_spec ops (WBuf.new N) (WBuf.new_inv N)
-  obtain ⟨b', g1, g2, g3, g4, g5, g6⟩ := WBuf.flush_spec b h2
+    ∃ b, (WBuf.new N).run (ops ++ [.flush]) = .ok b ∧ b.pos = 0 ∧ b.sink.flatten = appended ops ∧
+      b.Inv ∧ b.N = N := by
+  obtain ⟨b, h1, h2, h3, h4⟩ := WBuf.reach N ops
+  obtain ⟨b', g1, g2, g3, g4, _, _⟩ := WBuf.flush_spec b h2
   have hs := (WBuf.flush_stream b b' h2 g1).2
-  refine ⟨b', ?_, g4, ?_⟩
-  · have : ∀ (ops : List WOp) (a : WBuf) (c : WBuf), a.run ops = .ok c → a.run (ops ++ [.flush]) = c.flush := by
-      intro ops
-      induction ops with
-      | nil => intro a c h; simp [WBuf.run] at h; cases h; simp [WBuf.run, WBuf.step]
-               cases a.flush <;> rfl
-      | cons op ops ih =>
-        intro a c h
-        simp only [WBuf.run, List.cons_append] at h ⊢
-        cases hs : a.step op with
-        | ok a' => rw [hs] at h; simp only [Res.bind_ok] at h ⊢; exact ih a' c h
-        | throw e => rw [hs] at h; cases h
-        | oob w => rw [hs] at h; cases h
-    rw [this ops _ b h1, g1]
-  · rw [hs, h4]; simp [WBuf.stream, WBuf.new]
+  refine ⟨b', ?_, g4, by rw [hs, h4], g2, by rw [g3, h3]⟩
+  rw [WBuf.run_snoc ops .flush _ b h1]; exact g1
 
-/-- a block of at least N bytes is passed through unbuffered, after what was buffered -/
+/-- one flush on any invariant state: it succeeds, nothing stays buffered, and the sink then holds
+    exactly what sink ++ buffer held before -/
+theorem C19_write_flush_step (b : WBuf) (h : b.Inv) :
+    ∃ b', b.flush = .ok b' ∧ b'.Inv ∧ b'.N = b.N ∧ b'.pos = 0 ∧
+      b'.sink.flatten = b.sink.flatten ++ b.buf.take b.pos := by
+  obtain ⟨b', g1, g2, g3, g4, _, _⟩ := WBuf.flush_spec b h
+  exact ⟨b', g1, g2, g3, g4, (WBuf.flush_stream b b' h g1).2⟩
+
+/-- a block of at least N bytes is passed through unbuffered, after what was buffered: the sink
+    receives first the buffered bytes (one block, if there were any) and then the caller's block
+    as it is; nothing stays buffered, the buffer memory is untouched, the invariant is kept -/
 theorem C19_write_passthrough (b : WBuf) (h : b.Inv) (d : List Byte) (hd : d.length ≥ b.N) (hne : d ≠ []) :
     ∃ b', b.append d = .ok b' ∧ b'.pos = 0 ∧
-      b'.sink = (if b.pos > 0 then b.sink ++ [b.buf.take b.pos] else b.sink) ++ [d] := by
-  obtain ⟨bf, hf, _, _, hfp, _, hfs⟩ := WBuf.flush_spec b h
-  have h0 : (d.length == 0) = false := by
-    cases d with | nil => exact absurd rfl hne | cons _ _ => simp
-  unfold WBuf.append
-  simp only [h0, Bool.false_eq_true, if_false]
-  rw [if_pos hd, hf]
-  exact ⟨_, rfl, hfp, by simp [hfs]⟩
+      b'.sink = (if b.pos > 0 then b.sink ++ [b.buf.take b.pos] else b.sink) ++ [d] ∧
+      b'.Inv ∧ b'.N = b.N ∧ b'.buf = b.buf := by
+  obtain ⟨b', h1, h2, h3, h4, h5, h6⟩ := WBuf.append_big b h d hd hne
+  exact ⟨b', h1, h4, h6, h2, h3, h5⟩
+
+/-- Pass-through in every reachable state, no invariant hypothesis: after ANY history `ops` of
+    appends/flushes on a fresh buffer of size N, appending a non-empty block of at least N bytes
+    succeeds, leaves nothing buffered, and the sink is `pre ++ [d]` where `pre` — the earlier sink
+    blocks followed by the block of bytes that were still buffered, if any — flattens to exactly
+    everything appended before.  So the buffered bytes reach the sink before the oversized block,
+    and the oversized block is handed over as one block, unchanged. -/
+theorem C19_write_passthrough_reachable (N : Nat) (ops : List WOp) (d : List Byte)
+    (hd : d.length ≥ N) (hne : d ≠ []) :
+    ∃ b b' pre, (WBuf.new N).run ops = .ok b ∧ b.append d = .ok b' ∧
+      (WBuf.new N).run (ops ++ [.append d]) = .ok b' ∧
+      b'.pos = 0 ∧ b'.sink = pre ++ [d] ∧
+      pre = (if b.pos > 0 then b.sink ++ [b.buf.take b.pos] else b.sink) ∧
+      pre.flatten = appended ops ∧ b'.Inv ∧ b'.N = N := by
+  obtain ⟨b, h1, h2, h3, h4⟩ := WBuf.reach N ops
+  obtain ⟨b', g1, g2, g3, g4, _, g6⟩ := WBuf.append_big b h2 d (by rw [h3]; exact hd) hne
+  refine ⟨b, b', _, h1, g1, ?_, g4, g6, rfl, ?_, g2, by rw [g3, h3]⟩
+  · rw [WBuf.run_snoc ops (.append d) _ b h1]; exact g1
+  · rw [WBuf.flushed_sink_flatten, h4]
 
 /-! ### reading -/
 
@@ -91,6 +112,35 @@ theorem get_refines (r : RBuf) (len : Nat) (hI : r.Inv) :
         obtain ⟨e1, e2⟩ := h6 (by omega) (by omega) (by omega)
         rw [e1, e2]
 
+/-- Refinement from ANY reader state satisfying the invariant (buffer length = N,
+    start ≤ stop ≤ N): for every request sequence the outcomes of `get` and the stream still to be
+    delivered (unreturned buffered bytes ++ undelivered source bytes) are exactly those of the
+    abstract reader started on the state's pending stream; the invariant and the size are kept. -/
+theorem C19_read_refines_from (r : RBuf) (hI : r.Inv) (reqs : List Nat) :
+    (r.run reqs).1.Inv ∧ (r.run reqs).1.N = r.N ∧
+    ((r.run reqs).1.pending, (r.run reqs).2) = specRun r.N r.pending reqs := by
+  induction reqs generalizing r with
+  | nil => exact ⟨hI, rfl, by simp [RBuf.run, specRun]⟩
+  | cons l ls ih =>
+    obtain ⟨g1, g2, g3⟩ := get_refines r l hI
+    obtain ⟨k1, k2, k3⟩ := ih (r.get l).1 g1
+    simp only [RBuf.run, specRun]
+    rw [← g3]
+    simp only
+    rw [g2] at k3
+    rw [← k3]
+    exact ⟨k1, by rw [k2, g2], rfl⟩
+
+/-- Refinement including the state: on a fresh reader the outcomes AND the stream still to be
+    delivered by the model equal those of the abstract reader, for every buffer size, source
+    content, chunking and request sequence. -/
+theorem C19_read_refines_state (N : Nat) (src : List Byte) (chunks : List Nat) (reqs : List Nat) :
+    (((RBuf.new N src chunks).run reqs).1.pending, ((RBuf.new N src chunks).run reqs).2)
+      = specRun N src reqs := by
+  have := (C19_read_refines_from (RBuf.new N src chunks) (RBuf.new_inv N src chunks) reqs).2.2
+  rw [RBuf.new_pending] at this
+  exact this
+
 /-- Refinement: for every buffer size, source content, source chunking and request sequence the
     outcomes of `get` are exactly those of the abstract reader on the source's byte stream —
     each successful request returns the next `len` bytes, in order, nothing skipped or repeated,
@@ -98,25 +148,7 @@ theorem get_refines (r : RBuf) (len : Nat) (hI : r.Inv) :
     No outcome is `oob` (the abstract reader has none). -/
 theorem C19_read_refines (N : Nat) (src : List Byte) (chunks : List Nat) (reqs : List Nat) :
     ((RBuf.new N src chunks).run reqs).2 = (specRun N src reqs).2 := by
-  have gen : ∀ (reqs : List Nat) (r : RBuf), r.Inv →
-      ((r.run reqs).1.pending, (r.run reqs).2) = specRun r.N r.pending reqs := by
-    intro reqs
-    induction reqs with
-    | nil => intro r _; simp [RBuf.run, specRun]
-    | cons l ls ih =>
-      intro r hI
-      obtain ⟨g1, g2, g3⟩ := get_refines r l hI
-      have := ih (r.get l).1 g1
-      simp only [RBuf.run, specRun]
-      rw [← g3]
-      simp only
-      rw [g2] at this
-      rw [← this]
-  have := gen reqs (RBuf.new N src chunks) (RBuf.new_inv N src chunks)
-  rw [RBuf.new_pending] at this
-  have hN : (RBuf.new N src chunks).N = N := rfl
-  rw [hN] at this
-  rw [← this]
+  rw [← C19_read_refines_state N src chunks reqs]
 
 /-- the chunking is unobservable -/
 theorem C19_read_chunking_independent (N : Nat) (src : List Byte) (c1 c2 : List Nat) (reqs : List Nat) :
@@ -140,6 +172,65 @@ theorem C19_read_stream (N : Nat) (src : List Byte) (reqs : List Nat) :
           simp only [returned, List.append_assoc, this, List.take_append_drop]
         · simpa [returned] using ih src
 
+/-- Model-side stream theorem: for every buffer size, source content, chunking and request
+    sequence (including 0-byte, oversized and past-the-end requests), the bytes returned by the
+    model's `get`s, concatenated in order, followed by the bytes the model still holds (buffered
+    but not yet handed out, then not yet read from the source) are exactly the source bytes:
+    nothing is lost, duplicated or reordered, also across refused and failed requests. -/
+theorem C19_read_stream_model (N : Nat) (src : List Byte) (chunks : List Nat) (reqs : List Nat) :
+    returned ((RBuf.new N src chunks).run reqs).2 ++ ((RBuf.new N src chunks).run reqs).1.pending = src := by
+  have h := C19_read_refines_state N src chunks reqs
+  have h1 : ((RBuf.new N src chunks).run reqs).1.pending = (specRun N src reqs).1 := by rw [← h]
+  have h2 : ((RBuf.new N src chunks).run reqs).2 = (specRun N src reqs).2 := by rw [← h]
+  rw [h1, h2]; exact C19_read_stream N src reqs
+
+/-- the bytes returned by the model's `get`s, concatenated, are a prefix of the source bytes -/
+theorem C19_read_prefix (N : Nat) (src : List Byte) (chunks : List Nat) (reqs : List Nat) :
+    returned ((RBuf.new N src chunks).run reqs).2 <+: src :=
+  ⟨_, C19_read_stream_model N src chunks reqs⟩
+
+/-- consecutive pieces of a stream with the given lengths -/
+def cuts (s : List Byte) : List Nat → List (List Byte)
+  | [] => []
+  | l :: ls => s.take l :: cuts (s.drop l) ls
+
+/-- Completeness: when no request exceeds the buffer size and the requests together do not ask
+    for more than the source has, EVERY `get` of the model succeeds and returns the next piece of
+    the source (the i-th result is the `lᵢ` source bytes after the first `l₁+…+lᵢ₋₁`), whatever
+    the chunking; concatenated they are the first `Σ lᵢ` source bytes — the whole source when
+    the requests add up to its length. -/
+theorem C19_read_complete (N : Nat) (src : List Byte) (chunks : List Nat) (reqs : List Nat)
+    (hN : ∀ l ∈ reqs, l ≤ N) (hsum : reqs.sum ≤ src.length) :
+    ((RBuf.new N src chunks).run reqs).2 = (cuts src reqs).map GetOut.data ∧
+    returned ((RBuf.new N src chunks).run reqs).2 = src.take reqs.sum ∧
+    (reqs.sum = src.length → returned ((RBuf.new N src chunks).run reqs).2 = src) := by
+  have gen : ∀ (reqs : List Nat) (s : List Byte), (∀ l ∈ reqs, l ≤ N) → reqs.sum ≤ s.length →
+      (specRun N s reqs).2 = (cuts s reqs).map GetOut.data ∧
+      returned ((cuts s reqs).map GetOut.data) = s.take reqs.sum := by
+    intro reqs
+    induction reqs with
+    | nil => intro s _ _; simp [specRun, cuts, returned]
+    | cons l ls ih =>
+      intro s hN hsum
+      have hl : l ≤ N := hN l (by simp)
+      have hs : l + ls.sum ≤ s.length := by simpa using hsum
+      have hg : specGet N s l = (s.drop l, .data (s.take l)) := by
+        unfold specGet
+        by_cases h0 : l = 0
+        · subst h0; simp
+        · rw [if_neg h0, if_neg (by omega), if_pos (by omega)]
+      obtain ⟨i1, i2⟩ := ih (s.drop l) (fun x hx => hN x (by simp [hx])) (by simp; omega)
+      constructor
+      · simp only [specRun, hg, cuts, List.map_cons]
+        rw [i1]
+      · simp only [cuts, List.map_cons, returned, List.sum_cons]
+        rw [i2, List.take_add]
+  obtain ⟨g1, g2⟩ := gen reqs src hN hsum
+  have h := C19_read_refines N src chunks reqs
+  rw [h, g1]
+  refine ⟨rfl, g2, fun he => ?_⟩
+  rw [g2, he, List.take_length]
+
 /-- a request larger than the buffer is refused and the object is unchanged -/
 theorem C19_read_refuse (r : RBuf) (len : Nat) (h : len > r.N) : r.get len = (r, .throw .runtime_error) := by
   unfold RBuf.get
@@ -152,5 +243,51 @@ example : (WBuf.new 4).Inv := WBuf.new_inv 4
 example : ∃ b, (WBuf.new 4).run [.append [1,2,3], .append [4,5], .append [6,7,8,9,10], .flush] = .ok b
     ∧ b.sink = [[1,2,3],[4,5],[6,7,8,9,10]] := ⟨_, rfl, rfl⟩
 example : returned ((RBuf.new 4 [1,2,3,4,5,6,7] [1,2,1]).run [3, 5, 2, 2, 4]).2 = [1,2,3,4,5,6,7] := by decide
+
+/-- a state in the middle of a history: size 4, two bytes `7 8` buffered (the stale
+    byte 3 behind them is left from an earlier append), one block already written -/
+def midState : WBuf := { N := 4, buf := [7, 8, 3, 0], pos := 2, sink := [[1, 2, 3]] }
+
+/-- `C19_write_passthrough` with `pos > 0`: all hypotheses hold on `midState` with a 5-byte block … -/
+example : midState.Inv ∧ midState.pos > 0 ∧ [9,10,11,12,13].length ≥ midState.N ∧ [9,10,11,12,13] ≠ ([] : List Byte) := by
+  unfold WBuf.Inv; decide
+/-- … and, evaluated, the buffered bytes `7 8` reach the sink BEFORE the oversized block, which
+    arrives as one unchanged block; nothing stays buffered. -/
+example : midState.append [9,10,11,12,13] =
+    .ok { N := 4, buf := [7, 8, 3, 0], pos := 0, sink := [[1, 2, 3], [7, 8], [9, 10, 11, 12, 13]] } := rfl
+/-- the theorem instantiated on that state gives the same sink -/
+example : ∃ b', midState.append [9,10,11,12,13] = .ok b' ∧ b'.pos = 0 ∧
+    b'.sink = [[1, 2, 3], [7, 8], [9, 10, 11, 12, 13]] := by
+  obtain ⟨b', h1, h2, h3, _⟩ := C19_write_passthrough midState (by unfold WBuf.Inv; decide) [9,10,11,12,13] (by decide) (by decide)
+  exact ⟨b', h1, h2, by rw [h3]; rfl⟩
+/-- `midState` is reachable: the history form of the same fact (`C19_write_passthrough_reachable`
+    with N = 4, ops = the two appends, d = the 5-byte block) -/
+example : (WBuf.new 4).run [.append [1,2,3], .append [7,8]] = .ok midState := rfl
+example : ∃ b', (WBuf.new 4).run ([.append [1,2,3], .append [7,8]] ++ [.append [9,10,11,12,13]]) = .ok b' ∧
+    b'.pos = 0 ∧ b'.sink = [[1, 2, 3], [7, 8]] ++ [[9, 10, 11, 12, 13]] := ⟨_, rfl, rfl, rfl⟩
+/-- a block of exactly N bytes is passed through too (`≥`, as in the code) -/
+example : midState.append [9,10,11,12] =
+    .ok { N := 4, buf := [7, 8, 3, 0], pos := 0, sink := [[1, 2, 3], [7, 8], [9, 10, 11, 12]] } := rfl
+/-- `C19_write_stream_from` / `C19_write_flush_step` on a non-fresh invariant state -/
+example : ∃ b', midState.run [.append [9], .flush, .append [10,11]] = .ok b' ∧
+    b'.sink = [[1,2,3],[7,8,9]] ∧ b'.pos = 2 := ⟨_, rfl, rfl, rfl⟩
+
+/-- The invariant hypothesis is load-bearing, not decoration: on a state that violates it
+    (write position beyond the buffer) the checked model reports the access outside the buffer. -/
+example : ({ N := 2, buf := [0, 0], pos := 3, sink := [] } : WBuf).flush = .oob "flush: read buffer" := rfl
+example : ¬ ({ N := 2, buf := [0, 0], pos := 3, sink := [] } : WBuf).Inv := by unfold WBuf.Inv; decide
+
+/-- `C19_read_complete`: hypotheses hold (requests 3,0,4 ≤ N = 4, sum 7 = source length) and every
+    get succeeds with the next piece, for a 1-byte-ish chunking -/
+example : (∀ l ∈ [3, 0, 4], l ≤ 4) ∧ [3, 0, 4].sum = [1,2,3,4,5,6,7].length := by decide
+example : ((RBuf.new 4 [1,2,3,4,5,6,7] [1,2,1]).run [3, 0, 4]).2 = [.data [1,2,3], .data [], .data [4,5,6,7]] := rfl
+/-- `C19_read_stream_model` with a refused (5 > N) and a failed (EOF) request in the history:
+    returned ++ pending is still the source -/
+example : returned ((RBuf.new 4 [1,2,3,4,5,6,7] [1,0,2]).run [3, 5, 2, 4]).2 = [1,2,3,4,5] ∧
+    ((RBuf.new 4 [1,2,3,4,5,6,7] [1,0,2]).run [3, 5, 2, 4]).1.pending = [6,7] := by decide
+/-- `C19_read_refines_from` on a non-fresh invariant state (two bytes buffered, window in the middle) -/
+example : ({ N := 4, buf := [9, 5, 6, 9], start := 1, stop := 3, src := [7, 8], chunks := [1] } : RBuf).Inv := by unfold RBuf.Inv; decide
+example : returned (({ N := 4, buf := [9, 5, 6, 9], start := 1, stop := 3, src := [7, 8], chunks := [1] } : RBuf).run [3, 1]).2
+    = [5, 6, 7, 8] := by decide
 
 end CelmaVerif.Props.C19
